@@ -381,7 +381,7 @@ Qed.
 Lemma tr_ReadInt32_count : forall F ref p d data, ok (mk ref p d) ->
   match read_count (go_drop ref p) with
   | COk z r => exists p', tr_ReadInt32 (S (S F)) data 0 true (mk ref p d) = Return (mk ref p' d, z, false) /\
-                          go_drop ref p' = r /\ p <= p' <= go_len ref
+                          go_drop ref p' = r /\ p <= p' <= go_len ref /\ -2147483648 <= z <= 2147483647
   | CErr r => exists p' z, tr_ReadInt32 (S (S F)) data 0 true (mk ref p d) = Return (mk ref p' d, z, true) /\
                            go_drop ref p' = r /\ p <= p' /\ (p' = p \/ p' <= go_len ref)
   end.
@@ -410,20 +410,246 @@ Proof.
            destruct (go_drop_cons ref q b r' ltac:(lia) Er) as [E1 L1].
            assert (Hb' : (b < 256)%N).
            { pose proof (bytes_ok_drop ref q Hb) as Fb. rewrite Er in Fb. inversion Fb; assumption. }
-           rewrite wrapS_sext by lia. exists (q + 1). repeat split; try assumption; lia.
+           pose proof (wrapS_range 8 (Z.of_N b) ltac:(lia)) as WR. change (2 ^ (8 - 1)) with 128 in WR.
+           rewrite wrapS_sext in * by lia. exists (q + 1). repeat split; try assumption; lia.
       * (* SHORT *) pose proof (rd_be_equiv 2 ref q d ltac:(lia) ltac:(lia)) as RB. rewrite Er in RB.
         pose proof (bread_lt 2 r) as BL. change go_rd_u16 with (go_rd_be 2).
         destruct (bread 2 r) as [[v r']|].
         -- destruct RB as (-> & E2 & L2). cbn [bindc Bool.eqb negb].
-           rewrite wrapS_sext; [|lia|apply (BL v r'); [rewrite <- Er; apply bytes_ok_drop; assumption|reflexivity]].
+           pose proof (wrapS_range 16 (Z.of_N v) ltac:(lia)) as WR. change (2 ^ (16 - 1)) with 32768 in WR.
+           assert (Hv : Z.of_N v < 2 ^ 16) by (apply (BL v r'); [rewrite <- Er; apply bytes_ok_drop; assumption|reflexivity]).
+           rewrite wrapS_sext in * by first [lia | exact Hv].
            exists (q + Z.of_nat 2). repeat split; try assumption; lia.
         -- destruct RB as (p' & v & -> & E2 & L2 & L3). cbn [bindc Bool.eqb negb]. exists p', (wrapS 16 v). repeat split; try assumption; lia.
       * (* INT *) pose proof (rd_be_equiv 4 ref q d ltac:(lia) ltac:(lia)) as RB. rewrite Er in RB.
         pose proof (bread_lt 4 r) as BL. change go_rd_u32 with (go_rd_be 4).
         destruct (bread 4 r) as [[v r']|].
         -- destruct RB as (-> & E2 & L2). cbn [bindc Bool.eqb negb].
-           rewrite wrapS_sext; [|lia|apply (BL v r'); [rewrite <- Er; apply bytes_ok_drop; assumption|reflexivity]].
+           pose proof (wrapS_range 32 (Z.of_N v) ltac:(lia)) as WR. change (2 ^ (32 - 1)) with 2147483648 in WR.
+           assert (Hv : Z.of_N v < 2 ^ 32) by (apply (BL v r'); [rewrite <- Er; apply bytes_ok_drop; assumption|reflexivity]).
+           rewrite wrapS_sext in * by first [lia | exact Hv].
            exists (q + Z.of_nat 4). repeat split; try assumption; lia.
         -- destruct RB as (p' & v & -> & E2 & L2 & L3). cbn [bindc Bool.eqb negb]. exists p', (wrapS 32 v). repeat split; try assumption; lia.
   - destruct ST as (p' & ty & -> & E & L1 & L2). cbn [go_call Bool.eqb negb bindc]. exists p', data. repeat split; assumption.
+Qed.
+
+(* ---------- the skipping group against the (propagating) model ---------- *)
+Definition err_of (s : st) : bool := match s with SOk => false | _ => true end.
+(* the call c ends at a position where r is left, with the model's verdict *)
+Definition sim (c : ctl unit (go_reader * bool)) (ref : list N) (dd : Z) (s : st) (r : list N) : Prop :=
+  exists p', c = Return (mk ref p' dd, err_of s) /\ go_drop ref p' = r /\ 0 <= p' <= go_len ref + 4294967296.
+
+(* the body of the element loops of skipFieldMap / skipFieldList *)
+Definition lbody (F : nat) : Z -> go_reader -> ctl go_reader (go_reader * bool) :=
+  fun (_ : Z) (rd1 : go_reader) =>
+    go_call (tr_readHead rd1) (fun r__ => let '(rd2, tyCur, _, err_1) := r__ in
+      bindc (if negb (Bool.eqb err_1 false) then Return (rd2, err_1) else Next rd2)
+        (fun rd3 : go_reader => go_call (tr_skipField F tyCur rd3) (fun r__ => let '(rd4, _) := r__ in Next rd4))).
+
+Lemma tr_skipNested_sim sk ref p d (s : st) r : (d < maxd)%N ->
+  sim (sk (mk ref p (Z.of_N (d + 1)))) ref (Z.of_N (d + 1)) s r ->
+  sim (tr_skipNested sk (mk ref p (Z.of_N d))) ref (Z.of_N d) s r.
+Proof.
+  intros Hd (p' & E & Er & Hp'). unfold tr_skipNested, k_codec_maxSkipDepth. cbn [rd_depth].
+  assert (M : maxd = 512%N) by reflexivity. rewrite M in Hd.
+  replace (512 <=? Z.of_N d) with false by lia. cbn [bindc]. unfold go_rd_set_depth. cbn [rd_ref rd_pos rd_depth].
+  rewrite wrapS64_id by lia. replace (Z.of_N d + 1) with (Z.of_N (d + 1)) by lia. rewrite E. cbn [go_call rd_ref rd_pos rd_depth].
+  rewrite wrapS64_id by lia. exists p'. repeat split; try assumption; try lia. do 3 f_equal. lia.
+Qed.
+Lemma tr_skipNested_deep sk ref p d : (maxd <= d)%N -> Z.of_N d <= 4611686018427387904 ->
+  tr_skipNested sk (mk ref p (Z.of_N d)) = Return (mk ref p (Z.of_N d), true).
+Proof.
+  intros Hd Hb. unfold tr_skipNested, k_codec_maxSkipDepth. cbn [rd_depth].
+  assert (M : maxd = 512%N) by reflexivity. rewrite M in Hd. replace (512 <=? Z.of_N d) with true by lia. reflexivity.
+Qed.
+
+Lemma sim_wrap c ref dd s r : sim c ref dd s r ->
+  sim (bindc (go_call c (fun r__ => let '(rd, e) := r__ in
+                bindc (if negb (Bool.eqb e false) then Return (rd, e) else Next rd) (fun rd0 : go_reader => Next rd0)))
+             (fun rd : go_reader => Return (rd, false))) ref dd s r.
+Proof.
+  intros (p' & -> & Er & Hp'). cbn [go_call]. exists p'. destruct s; cbn [err_of Bool.eqb negb bindc]; (split; [reflexivity|split; assumption]).
+Qed.
+
+Lemma wrapS32_wrap32 z : wrapS 32 z = Skip.wrap32 z.
+Proof.
+  unfold wrapS, Skip.wrap32. change (2 ^ (32 - 1)) with 2147483648. change (2 ^ 32) with 4294967296. change (2 ^ 31) with 2147483648.
+  cbv zeta. rewrite <- (Zplus_mod_idemp_l z). pose proof (Z.mod_pos_bound z 4294967296 ltac:(lia)) as B.
+  set (m := z mod 4294967296) in *. destruct (m <? 2147483648) eqn:C.
+  - rewrite Z.mod_small by lia. lia.
+  - replace (m + 2147483648) with (m - 2147483648 + 1 * 4294967296) by lia. rewrite Z_mod_plus_full, Z.mod_small by lia. lia.
+Qed.
+
+Lemma skip_sim : forall f,
+  (forall F ref p d ty s r, (f + 3 <= F)%nat -> strict (mk ref p (Z.of_N d)) -> (ty < 16)%N -> (d <= maxd)%N ->
+     skip_field_p f d ty (go_drop ref p) = (s, r) -> s <> SFuel ->
+     sim (tr_skipField F (Z.of_N ty) (mk ref p (Z.of_N d))) ref (Z.of_N d) s r) /\
+  (forall F ref p d n i s r, (f + 2 <= F)%nat -> ok (mk ref p (Z.of_N d)) -> (d <= maxd)%N ->
+     skip_n_p f d n (go_drop ref p) = (s, r) -> s <> SFuel ->
+     exists p', go_count_from (Z.to_nat n) i (lbody F) (mk ref p (Z.of_N d)) =
+                (match s with SOk => Next (mk ref p' (Z.of_N d)) | _ => Return (mk ref p' (Z.of_N d), true) end) /\
+                go_drop ref p' = r /\ 0 <= p' <= go_len ref + 4294967296) /\
+  (forall F ref p d s r, (f + 3 <= F)%nat -> ok (mk ref p (Z.of_N d)) -> (d <= maxd)%N ->
+     skip_to_end_p f d (go_drop ref p) = (s, r) -> s <> SFuel ->
+     sim (tr_SkipToStructEnd F (mk ref p (Z.of_N d))) ref (Z.of_N d) s r).
+Proof.
+  induction f as [|f (IHf & IHn & IHe)].
+  { repeat split; intros; cbn in *; match goal with H : (SFuel, _) = (_, _) |- _ => inversion H; subst; congruence end. }
+  repeat split.
+  - (* skipField *)
+    intros F ref p d ty s r HF Hst Hty Hd H Hs. destruct Hst as [Hok Hstr]. pose proof Hok as (Hp & Hl & Hb).
+    cbn [rd_pos rd_ref] in *. unfold LEN_MAX in *.
+    destruct F as [|F]; [lia|]. cbn [tr_skipField]. cbn [skip_field_p] in H.
+    assert (Hpp : 0 <= p <= LEN_MAX + 4294967296) by (unfold LEN_MAX; lia).
+    destruct (ty16 ty Hty) as [T|[T|[T|[T|[T|[T|[T|[T|[T|[T|[T|[T|[T|[T|[T|T]]]]]]]]]]]]]]]; subst ty; codes; zcodes.
+    all: try (inversion H; subst s r; clear H).
+    (* fixed-width fields: Skip k *)
+    all: try (rewrite tr_Skip_pos by (try assumption; lia); cbn [go_call bindc Z.ltb Z.compare];
+              eexists; split; [reflexivity|]; split; [rewrite drop_go, go_drop_add by lia; reflexivity|lia]).
+    + (* STRING1 *)
+      destruct (go_drop ref p) as [|l r0] eqn:E; inversion H; subst s r; clear H.
+      * rewrite (readbyte_nil _ _ _ E). cbn [bindc Bool.eqb negb]. exists p. repeat split; try assumption; lia.
+      * rewrite (readbyte_cons _ _ _ _ _ E). cbn [bindc Bool.eqb negb].
+        destruct (go_drop_cons ref p l r0 ltac:(lia) E) as [E1 L1].
+        assert (Hl' : (l < 256)%N).
+        { pose proof (bytes_ok_drop ref p Hb) as Fb. rewrite E in Fb. inversion Fb; assumption. }
+        rewrite tr_Skip_pos by (unfold LEN_MAX; lia). cbn [go_call bindc].
+        eexists; split; [reflexivity|]. cbn [err_of]. rewrite drop_go.
+        destruct (0 <? Z.of_N l) eqn:C; split; try lia.
+        -- rewrite go_drop_add, E1 by lia. reflexivity.
+        -- rewrite E1. symmetry. apply go_drop_0. lia.
+    + (* STRING4 *)
+      pose proof (rd_be_equiv 4 ref p (Z.of_N d) ltac:(lia) ltac:(lia)) as RB. change go_rd_u32 with (go_rd_be 4).
+      pose proof (bread_lt 4 (go_drop ref p)) as BL.
+      destruct (bread 4 (go_drop ref p)) as [[v r0]|]; inversion H; subst s r; clear H.
+      * destruct RB as (-> & E2 & L2). cbn [bindc Bool.eqb negb].
+        assert (Hv : Z.of_N v < 2 ^ 32) by (apply (BL v r0); [apply bytes_ok_drop; assumption|reflexivity]).
+        change (2 ^ 32) with 4294967296 in Hv.
+        rewrite tr_Skip_pos by (unfold LEN_MAX; lia). cbn [go_call bindc].
+        eexists; split; [reflexivity|]. cbn [err_of]. rewrite drop_go.
+        destruct (0 <? Z.of_N v) eqn:C; split; try lia.
+        -- rewrite go_drop_add, E2 by lia. reflexivity.
+        -- rewrite E2. symmetry. apply go_drop_0. lia.
+      * destruct RB as (p' & v & -> & E2 & L2 & L3). cbn [bindc Bool.eqb negb]. exists p'. repeat split; try assumption; lia.
+    + (* MAP *)
+      assert (M : maxd = 512%N) by reflexivity.
+      destruct (maxd <=? d)%N eqn:Dp.
+      * inversion H; subst s r; clear H. rewrite tr_skipNested_deep by lia. cbn [go_call bindc Bool.eqb negb].
+        exists p. repeat split; try assumption; lia.
+      * apply sim_wrap. apply tr_skipNested_sim; [lia|].
+        destruct F as [|F2]; [lia|]. destruct F2 as [|[|F3]]; [lia|lia|]. cbn [tr_skipFieldMap].
+        assert (Hok' : ok (mk ref p (Z.of_N (d + 1)))) by exact Hok.
+        pose proof (tr_ReadInt32_count F3 ref p (Z.of_N (d + 1)) 0 Hok') as RC.
+        destruct (read_count (go_drop ref p)) as [n r0|r0].
+        -- destruct RC as (p' & -> & E2 & L2 & Rn). cbn [go_call bindc Bool.eqb negb].
+           unfold go_count. rewrite Z.sub_0_r. rewrite wrapS32_wrap32.
+           match goal with |- context [go_count_from _ _ ?b _] => change b with (lbody (S (S F3))) end.
+           destruct (IHn (S (S F3)) ref p' (d + 1)%N (Skip.wrap32 (n * 2)) 0 s r ltac:(lia)) as (p'' & EL & Er'' & Hp''); try assumption.
+           { repeat split; cbn [rd_pos rd_ref]; try assumption; lia. }
+           { lia. }
+           { rewrite E2. exact H. }
+           rewrite EL. destruct s; try congruence; cbn [bindc err_of]; exists p''; (split; [reflexivity|split; assumption]).
+        -- inversion H; subst s r; clear H. destruct RC as (p' & z & -> & E2 & L2 & L3). cbn [go_call bindc Bool.eqb negb].
+           exists p'. repeat split; try assumption; lia.
+    + (* LIST *)
+      assert (M : maxd = 512%N) by reflexivity.
+      destruct (maxd <=? d)%N eqn:Dp.
+      * inversion H; subst s r; clear H. rewrite tr_skipNested_deep by lia. cbn [go_call bindc Bool.eqb negb].
+        exists p. repeat split; try assumption; lia.
+      * apply sim_wrap. apply tr_skipNested_sim; [lia|].
+        destruct F as [|F2]; [lia|]. destruct F2 as [|[|F3]]; [lia|lia|]. cbn [tr_skipFieldList].
+        assert (Hok' : ok (mk ref p (Z.of_N (d + 1)))) by exact Hok.
+        pose proof (tr_ReadInt32_count F3 ref p (Z.of_N (d + 1)) 0 Hok') as RC.
+        destruct (read_count (go_drop ref p)) as [n r0|r0].
+        -- destruct RC as (p' & -> & E2 & L2 & Rn). cbn [go_call bindc Bool.eqb negb].
+           unfold go_count. rewrite Z.sub_0_r.
+           match goal with |- context [go_count_from _ _ ?b _] => change b with (lbody (S (S F3))) end.
+           destruct (IHn (S (S F3)) ref p' (d + 1)%N n 0 s r ltac:(lia)) as (p'' & EL & Er'' & Hp''); try assumption.
+           { repeat split; cbn [rd_pos rd_ref]; try assumption; lia. }
+           { lia. }
+           { rewrite E2. exact H. }
+           rewrite EL. destruct s; try congruence; cbn [bindc err_of]; exists p''; (split; [reflexivity|split; assumption]).
+        -- inversion H; subst s r; clear H. destruct RC as (p' & z & -> & E2 & L2 & L3). cbn [go_call bindc Bool.eqb negb].
+           exists p'. repeat split; try assumption; lia.
+    + (* StructBegin *)
+      assert (M : maxd = 512%N) by reflexivity.
+      destruct (maxd <=? d)%N eqn:Dp.
+      * inversion H; subst s r; clear H. rewrite tr_skipNested_deep by lia. cbn [go_call bindc Bool.eqb negb].
+        exists p. repeat split; try assumption; lia.
+      * apply sim_wrap. apply tr_skipNested_sim; [lia|].
+        apply IHe; try assumption; try lia.
+    + (* StructEnd *) cbn [bindc]. exists p. repeat split; try assumption; lia.
+    + (* ZeroTag *) cbn [bindc]. exists p. repeat split; try assumption; lia.
+    + (* SimpleList *)
+      apply sim_wrap. destruct F as [|[|[|F3]]]; try lia. cbn [tr_skipFieldSimpleList].
+      pose proof (tr_readHead_equiv ref p (Z.of_N d) Hok) as RH. unfold read_head in H.
+      destruct (read_head2 (go_drop ref p)) as [[[[t tg] r0] two]|].
+      * destruct RH as (-> & Er & Lr & Ht & Htg). cbn [go_call].
+        set (q := p + (if two then 2 else 1)) in *. assert (Hq : p <= q) by (unfold q; destruct two; lia).
+        unfold k_codec_BYTE, tBYTE, c_BYTE in *.
+        destruct (t =? 0)%N eqn:Tb; cbn [negb] in H.
+        -- replace (Z.of_N t =? 0) with true by lia. cbn [negb bindc Bool.eqb].
+           assert (Hokq : ok (mk ref q (Z.of_N d))) by (repeat split; cbn [rd_pos rd_ref]; try assumption; lia).
+           pose proof (tr_ReadInt32_count F3 ref q (Z.of_N d) 0 Hokq) as RC. rewrite Er in RC.
+           destruct (read_count r0) as [n r1|r1]; inversion H; subst s r; clear H.
+           ++ destruct RC as (p' & -> & E2 & L2 & Rn). cbn [go_call bindc Bool.eqb negb].
+              rewrite tr_Skip_pos by (unfold LEN_MAX; lia). cbn [go_call].
+              eexists; split; [reflexivity|]. cbn [err_of].
+              destruct (0 <? n) eqn:C; split; try lia.
+              ** rewrite drop_go, go_drop_add, E2 by lia. f_equal. lia.
+              ** exact E2.
+           ++ destruct RC as (p' & z & -> & E2 & L2 & L3). cbn [go_call bindc Bool.eqb negb].
+              exists p'. repeat split; try assumption; lia.
+        -- inversion H; subst s r; clear H. replace (Z.of_N t =? 0) with false by lia. cbn [negb bindc].
+           exists q. repeat split; try assumption; lia.
+      * inversion H; subst s r; clear H. destruct RH as (p' & t & tg & -> & E & L1 & L2). cbn [go_call].
+        exists p'. split; [|split; [assumption|lia]].
+        destruct (negb (t =? k_codec_BYTE)); cbn [bindc Bool.eqb negb]; reflexivity.
+    + (* 14: invalid *) cbn [bindc]. exists p. repeat split; try assumption; lia.
+    + (* 15: invalid *) cbn [bindc]. exists p. repeat split; try assumption; lia.
+  - (* the element loop *)
+    intros F ref p d n i s r HF Hok Hd H Hs. pose proof Hok as (Hp & Hl & Hb). cbn [rd_pos rd_ref] in *.
+    cbn [skip_n_p] in H. destruct (n <=? 0) eqn:Cn.
+    + inversion H; subst s r; clear H. replace (Z.to_nat n) with O by lia. cbn [go_count_from].
+      exists p. repeat split; try assumption; lia.
+    + replace (Z.to_nat n) with (S (Z.to_nat (n - 1))) by lia. cbn [go_count_from]. unfold lbody at 1.
+      pose proof (tr_readHead_equiv ref p (Z.of_N d) Hok) as RH. unfold read_head in H.
+      destruct (read_head2 (go_drop ref p)) as [[[[ty tg] r0] two]|].
+      * destruct RH as (-> & Er & Lr & Hty & Htg). cbn [go_call bindc Bool.eqb negb].
+        set (q := p + (if two then 2 else 1)) in *. assert (Hq : p <= q) by (unfold q; destruct two; lia).
+        destruct (skip_field_p f d ty r0) as [s0 r1] eqn:E0.
+        assert (Hs0 : s0 <> SFuel) by (intros ->; inversion H; subst; congruence).
+        destruct (IHf F ref q d ty s0 r1 ltac:(lia)) as (p1 & E1 & Er1 & Hp1); try assumption.
+        { split; [repeat split; cbn [rd_pos rd_ref]; try assumption; lia|cbn [rd_pos rd_ref]; lia]. }
+        { rewrite Er. exact E0. }
+        rewrite E1. cbn [go_call bindc].
+        assert (H' : skip_n_p f d (n - 1) r1 = (s, r)) by (destruct s0; try congruence; exact H).
+        apply (IHn F ref p1 d (n - 1) (i + 1) s r); try assumption; try lia.
+        { repeat split; cbn [rd_pos rd_ref]; try assumption; lia. }
+        { rewrite Er1. exact H'. }
+      * inversion H; subst s r; clear H. destruct RH as (p' & ty & tg & -> & E & L1 & L2). cbn [go_call bindc Bool.eqb negb].
+        exists p'. repeat split; try assumption; lia.
+  - (* SkipToStructEnd *)
+    intros F ref p d s r HF Hok Hd H Hs. pose proof Hok as (Hp & Hl & Hb). cbn [rd_pos rd_ref] in *.
+    destruct F as [|F]; [lia|]. cbn [tr_SkipToStructEnd]. cbn [skip_to_end_p] in H.
+    pose proof (tr_readHead_equiv ref p (Z.of_N d) Hok) as RH. unfold read_head in H.
+    destruct (read_head2 (go_drop ref p)) as [[[[ty tg] r0] two]|].
+    + destruct RH as (-> & Er & Lr & Hty & Htg). cbn [go_call bindc Bool.eqb negb].
+      set (q := p + (if two then 2 else 1)) in *. assert (Hq : p <= q) by (unfold q; destruct two; lia).
+      destruct (skip_field_p f d ty r0) as [s0 r1] eqn:E0.
+      assert (Hs0 : s0 <> SFuel) by (intros ->; inversion H; subst; congruence).
+      destruct (IHf F ref q d ty s0 r1 ltac:(lia)) as (p1 & E1 & Er1 & Hp1); try assumption.
+      { split; [repeat split; cbn [rd_pos rd_ref]; try assumption; lia|cbn [rd_pos rd_ref]; lia]. }
+      { rewrite Er. exact E0. }
+      rewrite E1. cbn [go_call]. destruct s0; try congruence; cbn [err_of Bool.eqb negb bindc].
+      * unfold k_codec_StructEnd, tSE, c_StructEnd in *. destruct (ty =? 11)%N eqn:Ce.
+        -- inversion H; subst s r; clear H. replace (Z.of_N ty =? 11) with true by lia. cbn [bindc go_iter].
+           exists p1. repeat split; try assumption; lia.
+        -- replace (Z.of_N ty =? 11) with false by lia. cbn [bindc go_iter].
+           apply IHe; try assumption; try lia.
+           { repeat split; cbn [rd_pos rd_ref]; try assumption; lia. }
+           { rewrite Er1. exact H. }
+      * inversion H; subst s r; clear H. cbn [go_iter]. exists p1. repeat split; try assumption; lia.
+    + inversion H; subst s r; clear H. destruct RH as (p' & ty & tg & -> & E & L1 & L2). cbn [go_call bindc Bool.eqb negb go_iter].
+      exists p'. repeat split; try assumption; lia.
 Qed.
